@@ -9,9 +9,16 @@ from concurrent.futures import ThreadPoolExecutor
 
 V = os.path.dirname(os.path.dirname(os.path.abspath(__file__)))
 REPO = os.environ.get("VERIF_REPO", "/repo")
-args = [a for a in sys.argv[1:] if not a.startswith("--")]
-jobs = int(sys.argv[sys.argv.index("--jobs") + 1]) if "--jobs" in sys.argv else 4
-tier = sys.argv[sys.argv.index("--tier") + 1] if "--tier" in sys.argv else "quick"
+argv = sys.argv[1:]
+jobs, tier, args = 4, "quick", []
+i = 0
+while i < len(argv):
+    if argv[i] == "--jobs":
+        jobs = int(argv[i + 1]); i += 2
+    elif argv[i] == "--tier":
+        tier = argv[i + 1]; i += 2
+    else:
+        args.append(argv[i]); i += 1
 root = os.environ.get("VERIF_SCRATCH") or "/tmp/verif-seedrecheck"
 os.makedirs(root, exist_ok=True)
 head = subprocess.run(["git", "-C", V, "rev-parse", "--short", "HEAD"], capture_output=True, text=True).stdout.strip()
@@ -25,11 +32,25 @@ def one(d):
     tmp = tempfile.mkdtemp(prefix="seed-", dir=root)
     try:
         shutil.copytree(os.path.join(REPO, "aquacrop"), os.path.join(tmp, "aquacrop"), ignore=shutil.ignore_patterns("__pycache__", "*.pyc"))
-        p = subprocess.run(["git", "apply", "--whitespace=nowarn", os.path.join(d, "patch.diff")], cwd=tmp, capture_output=True, text=True)
+        # the archived diffs are LF text; some repository files are CRLF: apply on an LF view of those files, then restore CRLF
+        diff = open(os.path.join(d, "patch.diff"), newline="").read().replace("\r\n", "\n")
+        files = [l[6:].strip() for l in diff.splitlines() if l.startswith("+++ b/")]
+        crlf = []
+        for f in files:
+            fp = os.path.join(tmp, f)
+            if os.path.exists(fp):
+                raw = open(fp, newline="").read()
+                if "\r\n" in raw:
+                    crlf.append(fp)
+                    open(fp, "w", newline="").write(raw.replace("\r\n", "\n"))
+        lf = os.path.join(tmp, "seed.lf.diff")
+        open(lf, "w", newline="").write(diff)
+        p = subprocess.run(["git", "apply", "--whitespace=nowarn", lf], cwd=tmp, capture_output=True, text=True)
         if p.returncode != 0:
-            p = subprocess.run(["patch", "-p1", "--binary", "-i", os.path.join(d, "patch.diff")], cwd=tmp, capture_output=True, text=True)
-            if p.returncode != 0:
-                return name, pid, None, ["patch does not apply: " + (p.stderr or p.stdout)[-200:]], time.time() - t0
+            return name, pid, None, ["patch does not apply: " + (p.stderr or p.stdout)[-200:]], time.time() - t0
+        for fp in crlf:
+            raw = open(fp, newline="").read()
+            open(fp, "w", newline="").write(raw.replace("\n", "\r\n"))
         env = dict(os.environ, VERIF_REPO=tmp, VERIF_NO_EVIDENCE="1", VERIF_MINIMISE_BUDGET_S="3", VERIF_WORKERS=str(max(4, 16 // jobs)))
         env.setdefault("VERIF_SEED", "0")
         q = subprocess.run([os.path.join(V, "check"), "check", pid, "--tier", tier], env=env, capture_output=True, text=True, timeout=7200)
